@@ -965,6 +965,17 @@ func main() {
 		for i := 0; i < ntimed; i++ {
 			hs = append(hs, History{ID: 300000 + i, Kind: "system", System: genTimed(i)})
 		}
+		// shutdown while a cancelled batch drains; idle wakes while the dispatcher is busy
+		ncs, niw := 4, 3
+		if a.Tier == "thorough" {
+			ncs, niw = 16, 12
+		}
+		for i := 0; i < ncs; i++ {
+			hs = append(hs, History{ID: 400000 + i, Kind: "system", System: genCancelStop(i + int(a.Seed%1000))})
+		}
+		for i := 0; i < niw; i++ {
+			hs = append(hs, History{ID: 500000 + i, Kind: "system", System: genIdleWakes(i + int(a.Seed%1000))})
+		}
 	}
 
 	var wg sync.WaitGroup
@@ -1029,6 +1040,9 @@ func main() {
 		if h.Kind == "worker" {
 			wcases = append(wcases, wcaseTerm(h))
 			rep.Evaluations++
+			if h.Failure != "" {
+				rep.ImplFailures = append(rep.ImplFailures, c.ImplFailure{Case: fmt.Sprint(h.ID), Step: h.FailStep, What: h.Failure})
+			}
 			for j := range h.WEvents {
 				if !h.WEvents[j].Skipped {
 					rep.Histogram["wev:"+h.WEvents[j].K]++
